@@ -6,6 +6,8 @@ pragma solidity >=0.7.0 <0.9.0;
 library SafeMath {
     function sub(uint256 a, uint256 b) internal pure returns (uint256) { return a - b; }
     function add(uint256 a, uint256 b) internal pure returns (uint256) { return a + b; }
+    function mul(uint256 a, uint256 b) internal pure returns (uint256) { return a * b; }
+    function div(uint256 a, uint256 b) internal pure returns (uint256) { return a / b; }
 }
 
 contract Ranged {
@@ -17,5 +19,7 @@ contract Ranged {
         require(a > 0, "a very long revert message that needs more than thirty two bytes");
         total = a.sub(b);
         total = total.add(1);
+        total = a.add(b).sub(1).mul(2).div(3);
+        total = (a.sub(b)).add(total.mul(2));
     }
 }
